@@ -65,15 +65,32 @@ characters of) that sub-command's reply text as a single argument, and the line'
 reply of its command applied to the evaluated arguments. -/
 theorem eval_postorder (hall : AllReply disp beh) (args : List Arg) (hne : args ≠ []) (hnoempty : NoEmpty args)
     (hdepth : cfg.maxNesting ≠ 0 → depthL args ≤ cfg.maxNesting) (log : List Call) :
-    evalTop cfg disp beh args ⟨log, false⟩ =
+    evalTop cfg disp beh args ⟨log, false, false⟩ =
       (.replied (textOf disp beh (values cfg disp beh args)),
-       ⟨log ++ refCalls cfg disp beh [] 0 args ++ [callOf disp [] (values cfg disp beh args)], false⟩) := by
+       ⟨log ++ refCalls cfg disp beh [] 0 args ++ [callOf disp [] (values cfg disp beh args)], false, false⟩) := by
   unfold evalTop
   cases args with
   | nil => exact absurd rfl hne
   | cons a l =>
     have := evalArgs_reply (cfg := cfg) hall (a :: l) 0 [] [] 0 log hnoempty (by simpa using hdepth)
     simpa using this
+
+/-- **Function application, with sub-commands that answer nothing**: when every command either
+replies or calls noReply (e.g. `Utilities.ignore`, which also tags the message `ignored`), every
+sub-command is called, in post-order, with each of its own sub-commands replaced by that
+sub-command's (truncated) reply text as a single argument — or by nothing at all when it did not
+reply — and the line answers what its command answers for the evaluated arguments. -/
+theorem eval_application (hall : AllAnswer disp beh) (args : List Arg) (hne : args ≠ []) (hnoempty : NoEmpty args)
+    (hdepth : cfg.maxNesting ≠ 0 → depthL args ≤ cfg.maxNesting) (log : List Call) :
+    (evalTop cfg disp beh args ⟨log, false, false⟩).1 = outcomeOf (answerOf disp beh (valuesO cfg disp beh args)) ∧
+    (evalTop cfg disp beh args ⟨log, false, false⟩).2.log =
+      log ++ refCallsO cfg disp beh [] 0 args ++ [callOf disp [] (valuesO cfg disp beh args)] := by
+  unfold evalTop
+  cases args with
+  | nil => exact absurd rfl hne
+  | cons a l =>
+    obtain ⟨ig, h, _⟩ := evalArgs_answer (cfg := cfg) hall (a :: l) 0 [] [] 0 log hnoempty (by simpa using hdepth)
+    simp only [h, List.nil_append, and_self]
 
 /-- **Nesting deeper than the maximum is refused**: no sub-command deeper than
 `supybot.commands.nested.maximum` ever runs, and a line that contains one is always stopped (never
@@ -88,8 +105,8 @@ theorem depth_refused (h0 : cfg.maxNesting ≠ 0) (args : List Arg) (st : St) :
 allowed" error. -/
 theorem depth_error (hall : AllReply disp beh) (h0 : cfg.maxNesting ≠ 0) (args : List Arg)
     (hnoempty : NoEmpty args) (hd : depthL args > cfg.maxNesting) (log : List Call) :
-    (evalTop cfg disp beh args ⟨log, false⟩).1 = .stopped .tooDeep := by
-  have hs := (depth_refused cfg disp beh h0 args ⟨log, false⟩).2 hd
+    (evalTop cfg disp beh args ⟨log, false, false⟩).1 = .stopped .tooDeep := by
+  have hs := (depth_refused cfg disp beh h0 args ⟨log, false, false⟩).2 hd
   unfold evalTop at hs ⊢
   cases args with
   | nil => simp [depthL] at hd
@@ -183,12 +200,17 @@ def exCfgE : EvCfg := ⟨2, 100, false, ['E'], fun _ => ['H'], ['I']⟩
 
 example : NoExc exDisp := fun _ _ h => by simp [exDisp] at h
 example : AllReply exDisp exBeh := fun a => ⟨0, ['P'], a.take 1, a.drop 1, _, rfl, rfl⟩
+example : AllAnswer exDisp (fun p c r => if c = [['n']] then ⟨true, .noReply⟩ else exBeh p c r) := fun a => by
+  refine ⟨0, ['P'], a.take 1, a.drop 1, rfl, ?_⟩
+  by_cases h : a.take 1 = [['n']]
+  · exact Or.inr ⟨true, by simp [h]⟩
+  · exact Or.inl ⟨joinChar ',' (a.take 1 ++ a.drop 1), by simp [h, exBeh]⟩
 
 /-- `f [g x] y` : not empty, no empty brackets, depth 1 ≤ 2; evaluated by `eval_postorder` -/
 def exLine : List Arg := [.str ['f'], .sub [.str ['g'], .str ['x']], .str ['y']]
 example : exLine ≠ [] ∧ NoEmpty exLine ∧ (exCfgE.maxNesting ≠ 0 → depthL exLine ≤ exCfgE.maxNesting) := by
   refine ⟨by simp [exLine], by simp [exLine, NoEmpty], by simp [exLine, depthL, exCfgE]⟩
-example : (evalTop exCfgE exDisp exBeh exLine ⟨[], false⟩).1 = .replied ['f', ',', 'g', ',', 'x', ',', 'y'] := by
+example : (evalTop exCfgE exDisp exBeh exLine ⟨[], false, false⟩).1 = .replied ['f', ',', 'g', ',', 'x', ',', 'y'] := by
   rw [eval_postorder exCfgE exDisp exBeh (fun a => ⟨0, ['P'], a.take 1, a.drop 1, _, rfl, rfl⟩) exLine
     (by simp [exLine]) (by simp [exLine, NoEmpty]) (by simp [exLine, depthL, exCfgE])]
   simp [exLine, values, textOf, exDisp, exBeh, exCfgE, joinChar]
